@@ -781,7 +781,9 @@ class Piece:
             name = toks[j + 1].text
             start, end = toks[k].start, toks[close].end
             if name in ("serde", "allow", "cfg", "doc", "test"):
-                if name == "cfg" and "crypto_openssl" not in inner and "unix" not in inner:
+                # (the build script turns the ed25519 / ed448 features on with every OpenSSL >= 1.1.1: a positive cfg on them is true)
+                if name == "cfg" and "crypto_openssl" not in inner and "unix" not in inner \
+                        and not (("ed25519" in inner or "ed448" in inner) and "not(" not in inner.replace(" ", "")):
                     raise Undecided(f"cfg attribute outside the closed list: {inner}")
                 if name == "serde":
                     self._note_serde(inner)
@@ -961,6 +963,18 @@ class Piece:
                     kind_ = "char" if lit.text.startswith("'") and lit.kind != "lifetime" else "str" if lit.text.startswith('"') else None
                     if kind_:
                         self._add(toks[k + 1].start, toks[k + 1].end, f"{toks[k + 1].text}_{kind_}", "T-STR", order=-99)
+                # `.replace(P, R)`: a character, a string literal or an array of characters as the pattern
+                if toks[k].text == "." and toks[k + 1].text == "replace" and toks[k + 2].text == "(":
+                    lit = toks[k + 3]
+                    if lit.text == "[":
+                        kc_ = match_close(toks, k + 3)
+                        if toks[kc_ + 1].text == "," and all(t_.text == "," or (t_.kind == "lit" and t_.text.startswith("'")) for t_ in toks[k + 4:kc_]):
+                            self._add(toks[k + 1].start, toks[k + 1].end, "replace_chars", "T-STR", order=-99)
+                            self._add(lit.start, lit.start, "&", "T-STR", order=-99)
+                    elif toks[k + 4].text == ",":
+                        kind_ = "char" if lit.text.startswith("'") and lit.kind != "lifetime" else "str" if lit.text.startswith('"') else None
+                        if kind_:
+                            self._add(toks[k + 1].start, toks[k + 1].end, f"replace_{kind_}", "T-STR", order=-99)
         # T-CONST: a function-local `const NAME: &T = ..;` gets the `'static` the elision stands for (Verus wants it written)
         for k in range(kb + 1, k1 - 4):
             if toks[k].text == "const" and toks[k + 1].kind == "ident" and toks[k + 2].text == ":" and toks[k + 3].text == "&" \
@@ -985,6 +999,17 @@ class Piece:
                     self._add(toks[k].start, toks[e].end, f"let {toks[k + 1].text}: {ty} = crate::vsync::unknown();", "T-STATIC")
                     k = e
                 k += 1
+        # T-STATIC (top level): a `static NAME: OnceLock<T> = OnceLock::new();` of the source file that this function names holds
+        # whatever earlier calls (of any function, on any thread) have left in it: at entry its content is unknown
+        if "stdx" in self.unit.preludes and self.mode == "verify":
+            try:
+                file_text_ = source(self.relpath).text
+            except Exception:
+                file_text_ = ""
+            for ms_ in re.finditer(r"(?m)^(?:pub(?:\([^)]*\))?\s+)?static\s+(\w+)\s*:\s*(?:std::sync::)?OnceLock<(.+?)>\s*=\s*(?:std::sync::)?OnceLock::new\(\);", file_text_):
+                nm_, ty_ = ms_.group(1), ms_.group(2)
+                if any(toks[q].kind == "ident" and toks[q].text == nm_ for q in range(kb, k1)):
+                    self._add(toks[kb].end, toks[kb].end, f"\n    let {nm_}: crate::vsync::OnceLock<{ty_}> = crate::vsync::unknown();\n", "T-STATIC")
         # T-LOG: log::level!( .. )
         k = kb
         while k < k1:
@@ -1589,7 +1614,7 @@ class Piece:
         for k in range(self.item.k0, self.item.k1):
             if toks[k].text == "env" and toks[k + 1].text == "!" and toks[k + 2].text == "(":
                 kc = match_close(toks, k + 2)
-                self._add(toks[k].start, toks[kc].end, '"<build-time constant>"', "T-ENV")
+                self._add(toks[k].start, toks[kc].end, '"<build-time constant>"', "T-ENV", order=-99)
 
     def render(self):
         if getattr(self, "_rendered", None) is not None:
@@ -1732,6 +1757,23 @@ class Piece:
         while self.impl.toks[k].text != "impl":
             k += 1
         return k
+
+
+def _model_path_exists(text, segs):
+    """does the trusted text define the item a::b::NAME, module by module (`pub mod a { .. pub mod b { .. struct NAME ..`)?"""
+    lo, hi = 0, len(text)
+    for seg in segs[:-1]:
+        m = re.compile(r"\bpub mod " + re.escape(seg) + r"\s*\{").search(text, lo, hi)
+        if not m:
+            return False
+        depth, i = 1, m.end()
+        while i < hi and depth:
+            ch = text[i]
+            depth += ch == "{"
+            depth -= ch == "}"
+            i += 1
+        lo, hi = m.end(), i
+    return bool(re.compile(r"\b(?:struct|enum|type|fn|const|trait|mod)\s+" + re.escape(segs[-1]) + r"\b").search(text, lo, hi))
 
 
 class Unit:
@@ -1928,7 +1970,7 @@ class Unit:
             if re.search(r"\b(?:struct|enum|type|fn|const|static|mod|trait|union)\s+" + re.escape(name) + r"\b", glob_):
                 return True
             return bool(re.search(r"\b(?:struct|enum|type|fn|const|static|mod|trait|union)\s+" + re.escape(name) + r"\b", body)
-                        or re.search(r"\buse\b[^;]*\b" + re.escape(name) + r"\b[^;]*;", body))
+                        or re.search(r"(?m)^\s*(?:pub\s+)?use\s[^;]*\b" + re.escape(name) + r"\b[^;]*;", body))
         def flatten(prefix, rest, out):
             rest = rest.strip()
             if rest.startswith("{") and rest.endswith("}"):
@@ -1983,9 +2025,23 @@ class Unit:
                 flat = []
                 flatten("", re.sub(r"\s+", " ", mu.group(1)), flat)
                 for name, full in flat:
-                    if full.split("::")[0] not in ("std", "core", "alloc") or name in ("self", "*"):
+                    root_ = full.split("::")[0]
+                    if name in ("self", "*"):
                         continue
-                    if re.search(r"\b" + re.escape(name) + r"\b", vt) and not declared(name) and f"{full}" not in uses:
+                    if root_ not in ("std", "core", "alloc"):
+                        # a crate the unit's trusted prelude models as a top-level module (`pub mod openssl { .. }`): the import is
+                        # carried over to that model when the model defines the item
+                        nm_ = full.split(" as ")[0].split("::")[-1]
+                        # (an item the model defines once: with two definitions of the name, the unit's own header decides which one is meant)
+                        if _model_path_exists(glob_, full.split(" as ")[0].split("::")) and \
+                                len(re.findall(r"\b(?:struct|enum|type|fn|const|trait|mod)\s+" + re.escape(nm_) + r"\b", glob_)) == 1:
+                            full = "crate::" + full
+                        else:
+                            continue
+                    modelled_ = full.startswith("crate::")
+                    in_body_ = bool(re.search(r"\b(?:struct|enum|type|fn|const|static|mod|trait|union)\s+" + re.escape(name) + r"\b", body)
+                                    or re.search(r"(?m)^\s*(?:pub\s+)?use\s[^;]*\b" + re.escape(name) + r"\b[^;]*;", body))
+                    if re.search(r"\b" + re.escape(name) + r"\b", vt) and not (in_body_ if modelled_ else declared(name)) and f"{full}" not in uses:
                         uses.append(full)
                         self.auto_log.append({"rule": "T-USE", "file": relpath, "item": name, "from": f"use {full};", "to": f"use {full};"})
             for mc in re.finditer(r"(?m)^(?:pub(?:\([^)]*\))?\s+)?const\s+(\w+)\s*:[^;]+;", src):
